@@ -435,6 +435,20 @@ def run_tree(root, t):
                         for d in mutate(rng, data, job['mutants']):
                             ds.append(do_deser(eolib, cls, d, rng.random() < 0.25))
                     out['deser'] = ds
+            elif op == 'namespace':
+                import subprocess
+                dp = os.path.join(root, 'declared.json')
+                json.dump(job['declared'], open(dp, 'w'))
+                outs = []
+                for first in job['firsts']:
+                    pr = subprocess.run([sys.executable, os.path.join(os.path.dirname(os.path.abspath(__file__)), 'ns_probe.py'), root, first, dp],
+                                        capture_output=True, text=True, timeout=120,
+                                        env=dict(os.environ, PYTHONPATH=os.path.join(root, 'src'), PYTHONHASHSEED=str(job.get('hashseed', 0))))
+                    try:
+                        outs.append(json.loads(pr.stdout.strip().split('\n')[-1]))
+                    except Exception:
+                        outs.append({'first': first, 'errors': ['probe failed: ' + (pr.stderr or pr.stdout)[-300:]], 'path_mismatches': [], 'name_mismatches': []})
+                out = {'probes': outs}
             elif op == 'immut':
                 out = do_immut(eolib, job)
             elif op == 'enum':
